@@ -38,17 +38,19 @@ func newVoteDistribution(proofs map[string]gcrypto.CommonMessageSignatureProof, 
 	// TODO: derive hash of trustedVals, ensure each proof matches that hash.
 	// Otherwise we risk reading an invalid proof and incorrectly calculating vote power.
 
-	// TODO: ensure we don't double count a validator,
-	// if one public key is present in multiple votes somehow.
-
-	var bs bitset.BitSet
+	var bs, voted bitset.BitSet
 	for blockHash, proof := range proofs {
 		proof.SignatureBitSet(&bs)
+		voted.InPlaceUnion(&bs)
 		for i, ok := bs.NextSet(0); ok && int(i) < len(vals); i, ok = bs.NextSet(i + 1) {
-			pow := vals[int(i)].Power
-			d.BlockVotePower[string(blockHash)] += pow
-			d.VotePowerPresent += pow
+			d.BlockVotePower[string(blockHash)] += vals[int(i)].Power
 		}
+	}
+
+	// A validator that signed more than one block hash
+	// counts toward each of those blocks, but only once toward the power present.
+	for i, ok := voted.NextSet(0); ok && int(i) < len(vals); i, ok = voted.NextSet(i + 1) {
+		d.VotePowerPresent += vals[int(i)].Power
 	}
 
 	return d
